@@ -119,6 +119,21 @@ def main():
         dc.append({"op": "in_unit", "a": {"m": ["int", "3", "1"], "u": [[None, f"zzd{ua}", 1]]}, "b": [[None, f"zzd{ub}", 1]]})
     rr, rro = run_both({"systems": False, "define": define, "decls": [], "cases": dc})
     judge({"define": define, "decls": []}, dc, rr, rro, None)
+    # a Level against quantities it cannot be converted to: == is False, != is True, nothing else (in particular no RecursionError)
+    lv = {"t": "level", "m": ["int", "20", "1"], "log": "decibel", "prefix": None, "ref": {"m": ["int", "1", "1"], "u": [[None, "watt", 1]]}}
+    lcases = []
+    for u in ([[None, "meter", 1]], [[None, "second", -1]], [["kilo", "gram", 1]], [[None, "volt", 1]]):
+        for m in (["int", "100", "1"], ["float", "5", "2"], ["int", "0", "1"]):
+            q = {"t": "qty", "m": m, "u": u}
+            for op in ("eq", "ne"):
+                lcases.append({"op": op, "l": lv, "r": q}); lcases.append({"op": op, "l": q, "r": lv})
+    for cs, rec in zip(lcases, impl("meas_worker.py", {"cases": lcases})["results"]):
+        c.count(cs)
+        res = rec["res"]
+        if "err" in res:
+            c.violation(f"exception:level-compare:{res['err']}", f"comparing a level with an inconvertible quantity raised {res['err']}", {"case": cs, "outcome": res})
+        elif res.get("b") != (cs["op"] == "ne"):
+            c.violation("level-eq-true", f"{cs['op']} between a level and an inconvertible quantity is {res.get('b')}", {"case": cs, "outcome": res})
     # a long definition chain: the recursion depth of the path finder grows with the chain
     n = 120 if quick else 400
     define = [[f"zzc{i}", [[1, 1]]] for i in range(n)]
